@@ -7,3 +7,7 @@ import MainlineModel.Model.Id
 import MainlineModel.Model.BinarySearch
 import MainlineModel.Model.Node
 import MainlineModel.Model.RoutingTable
+import MainlineModel.Model.Lru
+import MainlineModel.Model.Tokens
+import MainlineModel.Model.Messages
+import MainlineModel.Model.Server
